@@ -19,3 +19,4 @@ register(Unit(P, "USABLE/begin", cp.h_begin, functions=TXF("begin"), replay=cp._
 for kind in ("file-ops", "metadata-only", "empty"):
     register(Unit(P, f"OUTCOME/Transaction.commit-{kind}", cp.h_tx_commit(kind, False), functions=TXF("commit"), replay=cp._replay_tx))
     register(Unit(P, f"ASYNC/Transaction.commit-{kind}", cp.h_tx_commit(kind, True), functions=TXF("commit"), replay=cp._replay_tx))
+register(Unit(P, "RELEASE/MetadataManager.commit-local", cp.h_mm_commit("local"), functions=[f"{cp.MM}:MetadataManager.commit"], replay=cp._replay_mm_commit))
